@@ -14,6 +14,7 @@
     covers                                            for each result: does re-reading overwrite every cell?
 -/
 import PyTough.Model.ListingHistory
+import PyTough.Proofs.ListingRowFormat
 import PyTough.Py.Proto
 open Py Model Model.Listing
 
@@ -42,6 +43,15 @@ def showView (s : Rd) : String :=
 
 def showOpt (o : Option Int) : String := match o with | some i => toString i | none => "None"
 
+/-- do the hypotheses of Props.C05.column_boundaries_correct hold for the line this table's columns were inferred from? -/
+def rowFormatOf (t : Table) : String :=
+  if t.longest.isEmpty then "-"
+  else
+    let bs := t.numpos.dropLast.filterMap fun o => match o with | some i => if i ≥ 0 then some i.toNat else none | none => none
+    let okI := match t.cols with | c :: _ => c != ['I'] | [] => false
+    if bs.length + 1 == t.numpos.length && okI && t.numpos.getLast? == some (some (t.longest.length : Int)) &&
+       Proofs.Rows.rowFormatB t.longest bs then "1" else "0"
+
 def showLayout (name : String) (t : Table) : String :=
   let kp := String.intercalate "," (t.keyPos.map toString)
   let np := String.intercalate "," (t.numpos.map showOpt)
@@ -49,7 +59,7 @@ def showLayout (name : String) (t : Table) : String :=
     | some a => String.intercalate "," (a.toList.map toString)
     | none => "-"
   let sk := String.intercalate "," (t.skips.map toString)
-  s!"L {name} {t.numKeys} {if kp.isEmpty then "-" else kp} {if np.isEmpty then "-" else np} {t.headerSkip} {if sk.isEmpty then "-" else sk} {rl}"
+  s!"L {name} {t.numKeys} {if kp.isEmpty then "-" else kp} {if np.isEmpty then "-" else np} {t.headerSkip} {if sk.isEmpty then "-" else sk} {rl} RF={rowFormatOf t}"
 
 def showInfo (s : Rd) : String :=
   let sim := match s.simulator with | some x => toHex x | none => "-"
@@ -174,6 +184,25 @@ partial def loop (h out : IO.FS.Stream) (st : IO.Ref DSt) : IO Unit := do
         | some s0 => pure s!"ok {if sameView s s0 then 1 else 0}"
         | none => pure "bad-state"
       | _, _ => pure "bad-state"
+    | ["addr", tn, k] => do
+      match d.rd with
+      | some s =>
+        match s.tables.lookup tn with
+        | none => pure "no-table"
+        | some t =>
+          let key : Option (Sum Int Key) :=
+            if k.startsWith "i:" then (k.drop 2).toString.toInt?.map Sum.inl
+            else if k.startsWith "n:" then some (Sum.inr (((k.drop 2).toString.splitOn ";").map unhexD))
+            else none
+          match key with
+          | none => pure "bad-op"
+          | some kk =>
+            match t.getItem kk with
+            | .error e => pure s!"exc {e.toString}"
+            | .ok .none => pure "ok none"
+            | .ok (.col c) => pure ("ok col " ++ String.intercalate " " (c.map showFVal))
+            | .ok (.row r) => pure (s!"ok row {showKey r.key} " ++ String.intercalate " " (r.cells.map fun (c, v) => s!"{hexOrDash c}={showFVal v}"))
+      | none => pure "bad-state"
     | ["covers"] => do
       match d.rd with
       | some s => pure ("ok " ++ String.intercalate "," ((List.range s.fulltimes.size).map fun j => if coversAt s j then "1" else "0"))
